@@ -297,3 +297,28 @@ CLAIMED["C19"] = {
 NOT_YET = "check not built yet (work in progress in this session; see DESIGN.md section 8 build order)"
 NOT_APPLICABLE = {}
 ALL = ["C%02d" % i for i in range(1, 21)]
+
+# ---- coverage added after the second round of independently written changes (DESIGN 10.6, 12) -------------------
+_ADDED = {
+    "C05": " Every chunking also runs through an incremental decoder created without a code point callback (same verdicts, "
+           "no code points), and texts with a foreign byte inserted inside a well-formed sequence are included.",
+    "C11": " One family parses texts with 1100 sibling containers of each kind (beyond the parser's nesting limit) in one call.",
+    "C14": " Log subjects with names of 1 to 300 characters (and an unregistered one), both date formats, bursts of 20-90 "
+           "lines from 2-3 threads while batches are being written, the standard logger (aws_logger_init_standard: file "
+           "writer, by file name and by stream; lines read back after clean-up), level names <-> levels, and log calls "
+           "with no logger installed are covered by the same specification.",
+    "C15": " A second harness runs acquirer and releaser as two real threads under the controlled scheduler (the owner fills "
+           "each buffer through the byte_buf writer, the releaser checks the content before releasing; RingBufferVsTrace.tla, "
+           "same property-level rules plus content integrity), followed by a ThreadSanitizer data-race scan of it.",
+    "C16": " Every saturating helper is evaluated in four usage contexts per call (the helpers are inline: builtins or inline "
+           "assembly), and the arithmetic lines also run on the release build (gcc -O2 -DNDEBUG).",
+    "C17": " The traced allocator comes in four flavours (with/without mem_realloc x with/without mem_calloc).",
+    "C18": " Without a value destructor values may repeat, be the object already stored, or be NULL (MCPutAgain in both models).",
+    "C19": " A third of the executions re-run under three other process time zones; foreign RFC 822 texts come with and "
+           "without the optional week day; 2-3 threads round-trip date-times of their own under the controlled scheduler "
+           "(DateTimeVsTrace.tla) with a ThreadSanitizer data-race scan.",
+    "C20": " Threads are also launched pinned to an existing / a non-existent cpu (the library retries unpinned) and named; "
+           "the detach state reported after launch must match the join strategy.",
+}
+for _k, _t in _ADDED.items():
+    CLAIMED[_k]["text"] += _t
